@@ -65,6 +65,9 @@ def run(tier, replay=None):
             for i, lay, _f in layouts:
                 if i % 3 == 1:
                     lay[i % len(lay)]['rinit'] = True
+                if i % 4 == 2:
+                    for spec_ in lay:
+                        spec_['ext'] = True       # packages named vqa get a compiled-extension child
         n = core.NCPU
         jobs = [{'layouts': layouts[k::n], 'base': os.path.join(wd, 'fs%d' % k)} for k in range(n)]
         jobs = [j for j in jobs if j['layouts']]
